@@ -24,6 +24,9 @@ var preludeParts = []struct{ sym, text string }{
 (declare-fun sub-idx (Int) Int)
 (assert (forall ((r Int) (k Int)) (! (and (= (sub-par (sub r k)) r) (= (sub-idx (sub r k)) k) (=> (not (= r 0)) (< (sub r k) 0))) :pattern ((sub r k)))))
 `},
+	{"(splice ", `(declare-fun splice ((Array Int Int) Int (Array Int Int) Int) (Array Int Int))
+(assert (forall ((a (Array Int Int)) (n Int) (b (Array Int Int)) (m Int) (i Int)) (! (= (select (splice a n b m) i) (ite (and (<= n i) (< i (+ n m))) (select b (- i n)) (select a i))) :pattern ((select (splice a n b m) i)))))
+`},
 	{"(arrshift ", `(declare-fun arrshift ((Array Int Int) Int) (Array Int Int))
 (assert (forall ((a (Array Int Int)) (k Int) (i Int)) (! (= (select (arrshift a k) i) (select a (at k i))) :pattern ((select (arrshift a k) i)))))
 `},
